@@ -113,11 +113,39 @@ type Holder struct {
 	Key string
 	Rec *Rec
 	Set *bool
+	Get func() []string // when set, the content is read through it (built-in containers)
+}
+
+// Vals reads the container's current content.
+func (h Holder) Vals() []string {
+	if h.Get != nil {
+		return h.Get()
+	}
+	return h.Rec.Vals
+}
+
+// BuiltinDefault is the declared default of every built-in []string container of a case: ONE slice object with spare
+// capacity shared by all of them, as a program holding its defaults in a package-level variable would do.
+func BuiltinDefault() []string {
+	d := make([]string, 1, 16)
+	d[0] = "dflt"
+	return d
 }
 
 // DeclareRecorders declares every option and argument of d on c through Var with recorder types.
 func DeclareRecorders(c *cli.Cmd, d *Decls, envPrefix string) []Holder {
+	return DeclareContainers(c, d, envPrefix, false)
+}
+
+// DeclareContainers is DeclareRecorders with a choice: builtin = valued options and arguments are the library's own
+// []string containers (StringsOpt / StringsArg) instead of recorder value types; flags stay recorders (a BoolOpt only
+// keeps the last value, the number of occurrences would be lost).
+func DeclareContainers(c *cli.Cmd, d *Decls, envPrefix string, builtin bool) []Holder {
 	var hs []Holder
+	var shared []string
+	if builtin {
+		shared = BuiltinDefault()
+	}
 	for i, o := range d.Opts {
 		env := ""
 		if o.Env {
@@ -128,21 +156,29 @@ func DeclareRecorders(c *cli.Cmd, d *Decls, envPrefix string) []Holder {
 		if o.Bool {
 			v := &BRec{}
 			c.Var(cli.VarOpt{Name: o.DeclName(), Value: v, EnvVar: env, SetByUser: set})
-			hs = append(hs, Holder{d.OptKey(i), &v.Rec, set})
+			hs = append(hs, Holder{Key: d.OptKey(i), Rec: &v.Rec, Set: set})
+		} else if builtin {
+			p := c.Strings(cli.StringsOpt{Name: o.DeclName(), Value: shared, EnvVar: env, SetByUser: set})
+			hs = append(hs, Holder{Key: d.OptKey(i), Set: set, Get: func() []string { return *p }})
 		} else {
 			v := &Rec{}
 			c.Var(cli.VarOpt{Name: o.DeclName(), Value: v, EnvVar: env, SetByUser: set})
-			hs = append(hs, Holder{d.OptKey(i), v, set})
+			hs = append(hs, Holder{Key: d.OptKey(i), Rec: v, Set: set})
 		}
 		if env != "" {
 			unsetenv(env)
 		}
 	}
 	for i, a := range d.Args {
-		v := &Rec{}
 		set := new(bool)
+		if builtin {
+			p := c.Strings(cli.StringsArg{Name: a.Name, Value: shared, SetByUser: set})
+			hs = append(hs, Holder{Key: d.ArgKey(i), Set: set, Get: func() []string { return *p }})
+			continue
+		}
+		v := &Rec{}
 		c.Var(cli.VarArg{Name: a.Name, Value: v, SetByUser: set})
-		hs = append(hs, Holder{d.ArgKey(i), v, set})
+		hs = append(hs, Holder{Key: d.ArgKey(i), Rec: v, Set: set})
 	}
 	return hs
 }
@@ -152,7 +188,7 @@ func Snapshot(hs []Holder) map[string][]string {
 	m := map[string][]string{}
 	for _, h := range hs {
 		if *h.Set {
-			m[h.Key] = append([]string{}, h.Rec.Vals...)
+			m[h.Key] = append([]string{}, h.Vals()...)
 		}
 	}
 	return m
@@ -165,18 +201,29 @@ func RunReal(d *Decls, spec string, argv []string) Outcome {
 	return out
 }
 
+// RunRealBuiltin is RunReal with the library's own []string containers for valued options and arguments.
+func RunRealBuiltin(d *Decls, spec string, argv []string) Outcome {
+	var out Outcome
+	WithSwap(&out, func() { runRealInner(&out, d, spec, argv, "", true) })
+	return out
+}
+
 // RunRealInner is RunReal without touching the package level streams (the caller installed them).
 func RunRealInner(out *Outcome, d *Decls, spec string, argv []string, envPrefix string) {
+	runRealInner(out, d, spec, argv, envPrefix, false)
+}
+
+func runRealInner(out *Outcome, d *Decls, spec string, argv []string, envPrefix string, builtin bool) {
 	app := cli.App("app", "")
 	app.ErrorHandling = flag.ContinueOnError
 	app.Spec = spec
-	hs := DeclareRecorders(app.Cmd, d, envPrefix)
+	hs := DeclareContainers(app.Cmd, d, envPrefix, builtin)
 	app.Action = func() {
 		out.Accept = true
 		out.Bind = Snapshot(hs)
 		out.Raw = map[string][]string{}
 		for _, h := range hs {
-			out.Raw[h.Key] = append([]string{}, h.Rec.Vals...)
+			out.Raw[h.Key] = append([]string{}, h.Vals()...)
 		}
 	}
 	err := app.Run(append([]string{"app"}, argv...))
